@@ -1,7 +1,14 @@
 HOOK_COMMITS = ["0cc1f16"]
+FIX_COMMITS = ["f6ef902", "7953ad1", "5a73e74"]
 NOTES = "All checks: bin/check <ID> --tier quick|thorough [--replay file]; exit 0/1/2 (2 = TOOL-ERROR). See DESIGN.md."
 NOT_APPLICABLE = {}
 CHECKS = {
+    "C03": {
+        "text": "IntOps.tla defines checked fixed-width arithmetic, shifts, comparisons and casts; TLC emits the complete u8/i8 result tables (16 binary operators x 65536 pairs x 2 types, unary, Boolean, all casts from bool/8/16-bit sources over all source values) which the harness replays into compiled programs in the three operand forms; operands of 16/32/64-bit types and usize (boundary-directed + random) are evaluated on compiled programs and every event is validated by Trace_IntOps.tla on byte limbs (exact sums/products, relational division identity).",
+        "design_ref": "DESIGN.md §5 C03",
+        "note": "Exhaustive for 8-bit operand pairs (constants: boundary set in quick, all 256 in thorough) and 8/16-bit cast sources; sampled for wider types. Trusted: source rendering of the tiny operator programs, bit<->integer conversion in the harness, TLC.",
+        "technique": "TLC-generated exhaustive oracle tables replayed into the implementation + TLC trace validation of wide-type operator events",
+    },
     "C04": {
         "text": "Builder.tla transcribes the gate builder (constant folding, gate cache, negation map, every XOR/AND rewrite rule in code order, pruning and renumbering) as a state machine; TLC checks ResponseSound, AppendOnly, BuildPreservesOutputs over all request sequences in the bound for both cache modes. Every request history of the bound, plus simulated longer histories with macro requests, is replayed into the real CircuitBuilder and the built circuit is compared with the literal truth tables; random 50-400-request sequences recorded from the real builder are validated step by step by Trace_Builder.tla; corpus programs compiled with de-duplication on/off are compared (Trace_OnOff.tla).",
         "design_ref": "DESIGN.md §5 C04",
